@@ -7,22 +7,22 @@ import registry
 TEXT = {
  'C02': ('PARTIAL. Deductive proof (Verus) of the status / trailers / metadata hand-off at both ends on the real code: EncodeBody::poll_frame + EncodeState::trailers (server: every handler outcome becomes exactly one trailers block that is written(status); client: never trailers), Streaming::poll_next + StreamingInner::response (buffered complete messages are yielded before the trailers status; a non-OK grpc-status in the trailers is yielded exactly once as read(trailers)), Status::{add_header,to_header_map,from_header_map} with the round-trip lemma, Request/Response/metadata conversion. The async call-shape glue and the HTTP/2 transport between the ends are NOT covered.',
          'Assumed: http/bytes shims, codec contracts, percent/base64 axioms. See evidence not_covered for the uncovered glue.'),
- 'C16': ('Deductive proof (Verus) on the real tonic-web call.rs server side: make_trailers_frame lays out [0x80][be32 len][block]; poll_encode turns each inner frame into exactly its grpc-web image (DATA unchanged or base64, trailers as one 0x80 frame) and never emits HTTP trailers; the base64 request path (decode_chunk / poll_decode) decodes the largest multiple-of-four prefix, carries the rest, loses nothing under ANY chunking (ghost history) and ends cleanly only with nothing left over.',
-         'Partial: encode_trailers (iterator fold), base64 codec and service.rs classification are assumed / not yet covered.'),
+ 'C16': ('Deductive proof (Verus) on the real tonic-web call.rs server side: encode_trailers writes one name:value CRLF row per trailer entry in iteration order (induction over the fold); make_trailers_frame lays out [0x80][be32 len][block]; poll_encode turns each inner frame into exactly its grpc-web image (DATA unchanged or base64, trailers as one 0x80 frame) and never emits HTTP trailers; the base64 request path (decode_chunk / poll_decode) decodes the largest multiple-of-four prefix, carries the rest, loses nothing under ANY chunking (ghost history) and ends cleanly only with nothing left over.',
+         'Partial: base64 codec assumed; encode_trailers is under contract through an assumed HeaderMap::iter / Iterator::fold model; service.rs classification not yet covered.'),
  'C17': ('Deductive proof (Verus) on the real find_trailers (result == an independent recursive frame walk of the buffer), trailers_frame_len, and the client response-decoding loop of GrpcWebCall::poll_frame: for ANY chunking (ghost history of the inner body) the bytes handed out are exactly the complete message frames buffered, nothing is lost or duplicated (conservation: received == consumed trailers frames ++ data ++ still buffered), the trailers frame is decoded only when complete, a clean end / the trailers are produced only after the inner body ended with nothing left over (so truncation is an error), and the inner body is never polled after its end.',
          'Partial: the header-block parser decode_trailers_frame is outside reach (assumed); poll_decode binary path assumed. Two genuine defects found here were repaired by fix: commits.'),
  'C14': ('Deductive proof (Verus) of the real Reconnect::{poll_ready,call} and ResponseFuture::poll as a state machine, inductive over ANY history of connector/connection outcomes (loop invariant, no bound): Reconnect implements tower\'s ready/call contract (call never reaches its panic), a connect failure is returned at once only by an eager never-connected channel and otherwise parked with the state reset to Idle (so the next poll_ready starts a fresh connect), a parked error is handed to exactly one call and cleared.',
          'Partial: Buffer worker, hyper, ConnectError->UNAVAILABLE mapping and liveness are outside reach. Assumed: tower Service contract (call only after Ready(Ok)), Future one-poll contract.'),
  'C09': ('Deductive proof (Verus) on the real try_parse_grpc_timeout (exactly the spec-conformant values - 1..8 ASCII digits and a unit - are parsed, to exactly the duration they denote; everything else is an error, never a panic or overflow), duration_to_grpc_timeout (the written value is conformant, never longer than requested, loses less than one unit), GrpcTimeout::call (deadline == the shorter of header and configured timeout, malformed header ignored) and ResponseFuture::poll (a finished call wins; timeout only when the timer fired).',
-         'Partial: timers/virtual time and the TimeoutExpired->CANCELLED mapping are outside reach. Assumed std contracts for str::parse::<u64>, split_at, integer Display.'),
+         'Partial: timers/virtual time and the TimeoutExpired->CANCELLED mapping are outside reach. The Server builder (15 setters + layer()) carries the configured timeout unchanged (unit serverconfig); is_ascii_digits is decided by a complete Kani harness for its call-site domain. Assumed std contracts for str::parse::<u64>, split_at, integer Display.'),
  'C08': ('Deductive proof (Verus) on the real metadata code: into_sanitized_headers strips exactly the six reserved names and keeps every other key with its value sequence (loop invariant over the real GRPC_RESERVED_HEADERS table); Request/Response::into_http and Status::add_header emit user metadata only through it; Ascii/Binary::is_valid_key partition the keys by the -bin suffix; typed accessors (get/get_bin/remove/insert/append and their _bin variants) and Iter::next never cross the partition; Binary values are base64 on the wire and decode to the original bytes for padded and unpadded input (lemma over the b64 axioms).',
          'Assumed: http::HeaderMap multimap contract, base64 inverse axioms, repr(transparent) casts.'),
  'C05': ('Deductive proof (Verus) on the real compression.rs: from_accept_encoding_header only returns an encoding that is enabled for sending AND offered by the request; from_encoding_header accepts exactly the enabled encodings, identity/absent means none, everything else is refused with UNIMPLEMENTED carrying grpc-accept-encoding == exactly the enabled list; compress()/decompress() call the coder named by the encoding; decode_chunk rejects flag 1 without negotiated encoding with INTERNAL.',
-         'Assumed: the EnabledCompressionEncodings slot algebra is decided by Kani-complete harnesses (A-tonic-cfg-01); str split/trim as uninterpreted token list; flate2/zstd coders as uninterpreted functions with inverse axioms. Byte-string match arms are verified through rewrite R15 (first-match if-chain).'),
+         'The EnabledCompressionEncodings slot algebra (enable/pop/is_enabled/is_empty) is decided on the real code by complete Kani harnesses over all slot states. Assumed: into_accept_encoding_header_value (A-tonic-cfg-01, intractable for CBMC); str split/trim as uninterpreted token list; flate2/zstd coders as uninterpreted functions with inverse axioms. Byte-string match arms are verified through rewrite R15 (first-match if-chain).'),
  'C12': ('Deductive proof (Verus) of the frame condition on the real InterceptedService::call with the real Request::{from_http,into_parts,from_parts,into_http}: on accept exactly one inner call whose uri/method/version/body are the original and whose headers are exactly the interceptor\'s metadata (no sanitising); on reject the inner service is not called and ResponseFuture::poll resolves to exactly Status::into_http (200, application/grpc, grpc-status/message/details + sanitized metadata, empty body).',
          'Assumed: tower Service seen through a ghost call log, pin-project projections, http::Request/Response records; Status::into_http contract is proved in unit status (same clause text).'),
  'C04': ('Deductive proof (Verus) on the real status.rs: Code::{from_i32,from_bytes,to_header_value} equal independent tables for ALL inputs (from_bytes total: any byte string), Status::add_header/to_header_map write exactly code/message/details/sanitized metadata and never fail, Status::from_header_map is total (no panic obligation left: every expect/unwrap discharged) and exact, lemma_status_roundtrip: write then read gives the same status; infer_grpc_status and code_from_h2 equal the mapping tables of the statement.',
-         'Assumed: http::HeaderMap multimap contract, percent-encoding/base64 inverse axioms, vstd UTF-8 theory. Kani cross-check of the real h2/http constants and ENCODING_SET is planned in the Kani lane.'),
+         'Assumed: http::HeaderMap multimap contract, percent-encoding/base64 inverse axioms, vstd UTF-8 theory. Complete Kani harnesses on the real crate decide which bytes ENCODING_SET escapes (all 256), code_from_h2 over all 2^32 reasons on the real h2::Error, and that the h2::Reason / http::StatusCode numbers spelled out in the shims are the real ones.'),
  'C01': ('Deductive proof (Verus) that the real encoder functions (finish_encoding, encode_item, EncodedBytes::poll_next, EncodeBody::poll_frame) emit exactly frame(flag, payload) per message regardless of readiness/batching (step relation enc_step over a ghost log of the source) and that the real decoder functions hand out exactly the next frame of the concatenated input for ANY chunking (history invariant), plus spec-level lemmas parse(wire(ms)++t) == ms ++ parse(t) and parse(u++c) == parse(u) ++ parse(rest(u)++c). Unbounded in message count, sizes and chunkings.',
          'Assumed: compression inverse (FFI), codec Encoder/Decoder contracts, bytes/http-body shims, pin-project projections. Whole-trace induction not yet mechanised: the property is carried by per-call step relations.'),
  'C03': ('Deductive proof (Verus) on the real encoder: header layout [flag][be32 len][payload] against an independent wire spec, flag==1 iff an encoding is applied, trailers at most once and nothing after them, client bodies never carry trailers.',
